@@ -398,7 +398,83 @@ func init() {
 					}
 				}
 			}}
-			return []core.Section{random, sequences, {Name: "response-matrix", Exhaustive: true, N: len(combos) * reps,
+			// pages that write 4 KiB .. 8 MiB before they end or fail: the complete page, or none of it
+			pageSizes := []int{4 << 10, 32<<10 - 1, 32 << 10, 64<<10 + 1, 512 << 10, 1<<20 + 7, 8 << 20}
+			largePages := core.Section{Name: "large-pages", Exhaustive: true, N: len(pageSizes) * 4,
+				Run: func(c *core.Ctx, i int) {
+					size := pageSizes[i%len(pageSizes)]
+					mode := i / len(pageSizes) // 0: ok, debug off; 1: fails at the end, debug off, custom page; 2: fails, debug on; 3: fails in the last pass of a long loop
+					row := "<li>PAGE-SENTINEL row {{ n }} é</li>\n"
+					rows := size / (len(row) - 4)
+					files := map[string]string{"errors/oops.tw": customPageSource}
+					switch mode {
+					case 0:
+						files["page.tw"] = strings.Repeat(row, rows) + "end of page"
+					case 1, 2:
+						files["page.tw"] = strings.Repeat(row, rows) + "{{ MISSING_IDENT_SENTINEL }}"
+					default:
+						files["page.tw"] = "@each(r in many)" + row + "{{ 1 / (total - r) }}@end"
+					}
+					dir := "c17big-DIRSENTINEL"
+					if err := writeFilesFresh(dir, files); err != nil {
+						c.Inconclusive(err.Error())
+						return
+					}
+					textwire.VerifResetConfig()
+					cfg := &config.Config{TemplateDir: dir, TemplateExt: ".tw", DebugMode: mode == 2, ErrorPagePath: "errors/oops"}
+					var tpl *textwire.Template
+					var lerr error
+					c.Eval(1)
+					if c.Guard(func() { tpl, lerr = textwire.NewTemplate(cfg) }) {
+						return
+					}
+					desc := map[string]any{"page_bytes_about": size, "mode": []string{"succeeds", "fails at its end (custom page, debug off)", "fails at its end (debug on)", "fails in the last pass of a loop"}[mode]}
+					c.Input(desc)
+					c.Nontrivial(fmt.Sprint("large", size, mode))
+					if lerr != nil || tpl == nil {
+						c.Violation("response:large:load-failed", fmt.Sprintf("the page did not load: %v", lerr), desc)
+						return
+					}
+					passes := size / len(row)
+					many := make([]int, passes)
+					for k := range many {
+						many[k] = k + 1
+					}
+					data := map[string]any{"n": 7, "many": many, "total": passes}
+					rec := newRecorder()
+					var rerr error
+					c.Eval(1)
+					if c.Guard(func() { rerr = tpl.Response(rec, "page", data) }) {
+						return
+					}
+					body := rec.body.String()
+					if hp := rec.headerProblem(); hp != "" {
+						c.Violation("response:content-length", hp, desc)
+					}
+					switch mode {
+					case 0:
+						want := strings.Repeat(strings.Replace(row, "{{ n }}", "7", 1), rows) + "end of page"
+						if rerr != nil || body != want {
+							c.Violation("response:large:incomplete-page", fmt.Sprintf("Response wrote %d bytes (error %v), the complete page has %d", len(body), rerr, len(want)), desc)
+						}
+					default:
+						if rerr == nil {
+							c.Violation("response:large:nil-error", "rendering fails but Response returned nil", desc)
+							return
+						}
+						if strings.Contains(body, "PAGE-SENTINEL") {
+							c.Violation("response:large:page-leaked", fmt.Sprintf("the body (%d bytes) contains part of the failed page", len(body)), desc)
+						}
+						if mode == 2 {
+							if strings.Count(body, builtinMarker) != 1 || !strings.Contains(body, "MISSING_IDENT_SENTINEL") {
+								c.Violation("response:large:wrong-error-page", fmt.Sprintf("expected the built-in page with the message, body is %q", clipS(body, 200)), desc)
+							}
+						} else if body != customPageText {
+							c.Violation("response:large:wrong-error-page", fmt.Sprintf("expected the custom error page, body is %q", clipS(body, 200)), desc)
+						}
+					}
+				}}
+			return []core.Section{random, sequences, largePages, {Name: "response-matrix", Exhaustive: true, N: len(combos) * reps,
 				Run: func(c *core.Ctx, i int) {
 					// a seeded permutation, so that configurations alternate inside each worker
 					perm := core.NewRng("C17-perm", c.Seed, i/len(combos)).Perm(len(combos))
